@@ -14,8 +14,8 @@
     [x X *] as the wildcard, components and qualifiers written after a wildcard (ignored), a
     prerelease tag written without its hyphen when it starts with a letter, one or more
     blanks between comparators, blanks around [||], at both ends of the text and around
-    the hyphen of a hyphen range, and unparseable tokens (here: tokens that start with a
-    letter other than [v x X]), which are dropped.
+    the hyphen of a hyphen range, and unparseable tokens (here: tokens whose first scalar
+    cannot start a comparator, see [garbage_token]), which are dropped.
 
     This file is a specification: it mentions no parser.  [Proofs/LayerB.v] proves that
     [Range::parse]'s model returns, for every text related to a tree, exactly what the
@@ -66,10 +66,15 @@ Definition form_lead (f : form) (l : str) : Prop :=
   | FCaret => exists w, blank_str w /\ l = 94 :: w
   end.
 
-(** an unparseable token: starts with a letter other than v, x, X; no blank and no [|] inside *)
+(** an unparseable token: its first scalar cannot start any comparator -- not a digit, a wildcard, [v], an operator, [~], [^] --
+    and is not [-] (which after a partial version could start a hyphen range), a blank or [|]: letters other than v x X,
+    [+], [.], [!], non-ASCII scalars, ...; no blank and no [|] inside *)
 Definition tok_char (c : N) : bool := negb (is_space c) && negb (c =? 124).
+Definition junk_start (c : N) : bool :=
+  negb (is_digit c) && negb (is_wild c) && negb (is_space c) && negb (c =? 118) && negb (c =? 60) && negb (c =? 61) && negb (c =? 62)
+  && negb (c =? 126) && negb (c =? 94) && negb (c =? 124) && negb (c =? 45).
 Definition garbage_token (t : str) : Prop :=
-  exists c t', t = c :: t' /\ is_alpha c = true /\ c <> 118 /\ c <> 120 /\ c <> 88 /\ all tok_char t'.
+  exists c t', t = c :: t' /\ junk_start c = true /\ all tok_char t'.
 
 Inductive comp_text : comp -> str -> Prop :=
 | CT_comp f p l t : form_lead f l -> partial_text t p -> comp_text (Comp f p) (l ++ t)
